@@ -3,6 +3,7 @@
 package c16
 
 import (
+	"math"
 	"math/big"
 	"strings"
 	"sync"
@@ -20,6 +21,7 @@ type elem struct {
 	src   string // Lisp source building the object
 	quick bool   // member of the quick-tier relation universe (every element is in the thorough one and in the type universe)
 	m     *mv    // model value for the oracle-sensitivity self-test (nil: not part of the self-test universe)
+	norel bool   // member of the type / coerce universe only (takes no part in the pair / triple relations of either tier)
 }
 
 // mv is a model value: the reference semantics of the four predicates and
@@ -65,8 +67,8 @@ var universe = []*elem{
 	{name: "c1", src: "#C(1 0)", quick: true},
 	{name: "c12a", src: "#C(1 2)"},
 	{name: "c12b", src: "#C(1 2)"},
-	{name: "d0", src: "0.0d0"},
-	{name: "dm0", src: "-0.0d0"},
+	{name: "d0", src: "0.0d0", quick: true},
+	{name: "dm0", src: "-0.0d0", quick: true},
 	{name: "big64a", src: two64, quick: true, m: mint(two64)},
 	{name: "big64b", src: two64, quick: true, m: mint(two64)},
 	{name: "big64p", src: two64p, quick: true, m: mint(two64p)},
@@ -89,11 +91,62 @@ var universe = []*elem{
 	{name: "r12a", src: "1/2", quick: true, m: mrat("1/2")},
 	{name: "r12b", src: "1/2", quick: true, m: mrat("1/2")},
 	{name: "d05", src: "0.5d0", quick: true, m: mflt("1/2")},
-	{name: "f05", src: "0.5f0"},
-	{name: "r13", src: "1/3"},
-	{name: "d13", src: "0.3333333333333333d0"},
+	{name: "f05", src: "0.5f0", quick: true},
+	{name: "r13", src: "1/3", quick: true},
+	{name: "d13", src: "0.3333333333333333d0", quick: true},
 	{name: "r13x", src: "6004799503160661/18014398509481984"}, // the exact value of the double nearest 1/3
 	{name: "oct1", src: "(coerce 1 'octet)"},
+	// ---- round 6: every equivalence class slip's predicates measure on numbers in EVERY representation that can hold the
+	// value (held by value: fixnum, single, double, complex; held by reference: bignum, ratio, long-float), non-integral
+	// values in particular; the same elements are the key alphabet of the table pair family (pairs.go)
+	{name: "l05", src: "0.5l0", quick: true},
+	{name: "c05", src: "#C(0.5 0)", quick: true},
+	{name: "rm74", src: "-7/4", quick: true, m: mrat("-7/4")},
+	{name: "dm175", src: "-1.75d0", quick: true, m: mflt("-7/4")},
+	{name: "fm175", src: "-1.75f0"},
+	{name: "lm175", src: "-1.75l0"},
+	{name: "r14", src: "1/4"},
+	{name: "d025", src: "0.25d0"},
+	{name: "l025", src: "0.25l0", quick: true},
+	{name: "d2", src: "2.0d0"},
+	{name: "f2", src: "2.0f0"},
+	{name: "l2", src: "2.0l0"},
+	{name: "big2", src: "(coerce 2 'bignum)", quick: true}, // a bignum that holds a fixnum value
+	{name: "r42", src: "4/2", quick: true},                 // a ratio that holds an integer (the reader does not normalise it)
+	{name: "c2", src: "#C(2 0)"},
+	{name: "f64", src: "(coerce " + two64 + " 'single-float)", quick: true},
+	{name: "r64", src: "36893488147419103232/2"}, // 2^64 held by a ratio
+	{name: "l64p", src: two64p + ".0l0"},
+	{name: "f0", src: "0.0f0"},
+	{name: "fm0", src: "-0.0f0"},
+	{name: "l0", src: "0.0l0"},
+	{name: "lm0", src: "-0.0l0"},
+	{name: "c0", src: "#C(0 0)"},
+	{name: "f13", src: "(coerce 1/3 'single-float)"},
+	// bystander keys of the table pair family: equal to no other element
+	{name: "r15", src: "1/5"},
+	{name: "l075", src: "0.75l0"},
+	{name: "big65", src: "36893488147419103232"},
+	{name: "szz", src: `"zz"`},
+	// non-finite floats (reachable through overflow): every predicate must still answer, equal ones hash alike
+	{name: "dinf", src: "(* 1.0d308 10)", quick: true},
+	{name: "dinf_b", src: "(* 1.0d308 100)"},
+	{name: "finf", src: "(coerce (* 1.0d308 10) 'single-float)", quick: true},
+	{name: "linf", src: "(coerce (* 1.0d308 10) 'long-float)"},
+	{name: "dminf", src: "(- (* 1.0d308 10))"},
+	{name: "dnan", src: "(let ((i (* 1.0d308 10))) (- i i))", quick: true},
+	{name: "dnan_b", src: "(let ((i (* 1.0d308 100))) (- i i))"},
+	// values at the edge of the integer result types of coerce (sign, 8 bits, fraction, magnitude)
+	{name: "im1", src: "-1"},
+	{name: "i255", src: "255"},
+	{name: "i256", src: "256"},
+	{name: "d15", src: "1.5d0"},
+	{name: "dm1", src: "-1.0d0"},
+	{name: "d1e300", src: "1.0d300"},
+	{name: "bigm64", src: "-" + two64},
+	{name: "rm12", src: "-1/2"},
+	{name: "cm1", src: "#C(-1 0)"},
+	{name: "sbm3", src: "(coerce -3 'signed-byte)"},
 	// ---- strings, symbols, characters
 	{name: "sabc_a", src: `"abc"`, quick: true, m: &mv{k: "str", s: "abc"}},
 	{name: "sabc_b", src: `(copy-seq "abc")`, quick: true, m: &mv{k: "str", s: "abc"}},
@@ -127,6 +180,16 @@ var universe = []*elem{
 	{name: "lsA", src: `(list "A")`, quick: true, m: &mv{k: "list", kids: []*mv{{k: "str", s: "A"}}}},
 	{name: "lca", src: `(list #\a)`, quick: true},
 	{name: "lcA", src: `(list #\A)`, quick: true},
+	{name: "lr12", src: "(list 1/2)", quick: true}, // containers whose elements are one number in different representations
+	{name: "ld05", src: "(list 0.5d0)", quick: true},
+	{name: "ll05", src: "(list 0.5l0)", quick: true},
+	{name: "lc05", src: "(list #C(0.5 0))"},
+	{name: "ld64", src: "(list " + two64 + ".0d0)"},
+	{name: "vr12", src: "(vector 1/2)"},
+	{name: "vd05", src: "(vector 0.5d0)"},
+	{name: "vl05", src: "(vector 0.5l0)"},
+	{name: "dotr12", src: "'(a . 1/2)"},
+	{name: "dotl05", src: "'(a . 0.5l0)"},
 	{name: "lnest_a", src: "(list 1 (list 2 3))"},
 	{name: "lnest_b", src: "(list 1 (list 2 3))"},
 	{name: "lbig_a", src: "(list " + two64 + ")"},
@@ -188,6 +251,103 @@ var universe = []*elem{
 	{name: "bit1", src: "(coerce 1 'bit)"},
 	{name: "vfl", src: "(make-instance 'vanilla-flavor)"},
 	{name: "bagi", src: "(make-instance 'bag-flavor)"},
+	// ---- round 6: kinds the type / coerce universe lacked (typep of own type-of and of every supertype, coerce from every
+	// kind the table of coerce documents). Type universe only unless marked otherwise.
+	{name: "assoc", src: "'((a . 1) (b . 2))"},
+	{name: "lchars", src: `(list #\a #\b)`},
+	{name: "lbits", src: "(list 1 0 1)"},
+	{name: "vbits", src: "(vector 1 0 1)", norel: true},
+	{name: "vchars", src: `(vector #\a #\b)`, norel: true},
+	{name: "scar", src: `"car"`},
+	{name: "ycar", src: "'car"},
+	{name: "s12", src: `"12"`, norel: true},
+	{name: "clam", src: "(code-char 955)"},
+	{name: "bv0", src: "#*", norel: true},
+	{name: "oc0", src: "(coerce '() 'octets)", norel: true},
+	{name: "v0", src: "(vector)", norel: true},
+	{name: "vch", src: "(make-array 2 :element-type 'character :initial-element #\\a)", norel: true},
+	{name: "vbit", src: "(make-array 3 :element-type 'bit)", norel: true},
+	{name: "voct", src: "(make-array 2 :element-type 'octet)", norel: true},
+	{name: "mkstr", src: "(make-string 2)", norel: true},
+	{name: "gsym", src: "(gensym)", norel: true},
+	{name: "usym", src: `(make-symbol "abc")`},
+	{name: "byte1", src: "(coerce 1 'byte)", norel: true},
+	{name: "shf1", src: "(coerce 1 'short-float)", norel: true},
+	{name: "tnow", src: "(now)", norel: true},
+	{name: "rstate", src: "(make-random-state)", norel: true},
+	{name: "pkgcl", src: "(find-package 'cl)", norel: true},
+	{name: "pkgkw", src: "(find-package 'keyword)", norel: true},
+	// streams
+	{name: "sistrm", src: `(make-string-input-stream "abc")`, norel: true},
+	{name: "istrm", src: "*standard-input*", norel: true},
+	{name: "bstrm", src: "(make-broadcast-stream)", norel: true},
+	{name: "twstrm", src: "(make-two-way-stream (make-string-input-stream \"a\") (make-string-output-stream))", norel: true},
+	{name: "ecstrm", src: "(make-echo-stream (make-string-input-stream \"a\") (make-string-output-stream))", norel: true},
+	{name: "systrm", src: "(make-synonym-stream '*standard-output*)", norel: true},
+	{name: "ccstrm", src: "(make-concatenated-stream)", norel: true},
+	// functions of every make
+	{name: "gfn", src: "#'c16-gf", norel: true},
+	{name: "mac", src: "#'when", norel: true},
+	{name: "fdef", src: "#'c16-fn", norel: true},
+	{name: "fclos", src: "(let ((n 1)) (lambda (x) (+ x n)))", norel: true},
+	// classes, flavors and structures as objects, and their instances
+	{name: "cls1", src: "(class-of 1)", norel: true},
+	{name: "ucls", src: "(find-class 'c16-cl)", norel: true},
+	{name: "bpcls", src: "(find-class 'bag-path)", norel: true},
+	{name: "uflv", src: "(find-flavor 'c16-fl)", norel: true},
+	{name: "stcls", src: "(find-class 'c16-st)", norel: true},
+	{name: "sti_a", src: "(make-c16-st :a 1)"},
+	{name: "sti_b", src: "(make-c16-st :a 1)"},
+	{name: "cl2", src: "(make-instance 'c16-cl2 :x 1 :y 2)", norel: true},
+	{name: "fl3", src: "(make-instance 'c16-fl2 :a 1)", norel: true},
+	{name: "bagp", src: `(make-bag-path "a.b")`, norel: true},
+	{name: "sock", src: "(make-instance 'socket)", norel: true},
+	{name: "logr", src: "(make-instance 'logger-flavor)", norel: true},
+	{name: "sysi", src: "(make-instance 'system)", norel: true},
+	{name: "suite", src: "(make-instance 'suite-flavor)", norel: true},
+	{name: "testi", src: "(make-instance 'test-flavor)", norel: true},
+	{name: "tstbl", src: "(make-instance 'testable-flavor)", norel: true},
+	{name: "hreq", src: "(make-instance 'http-request-flavor)", norel: true},
+	{name: "hres", src: "(make-instance 'http-response-flavor)", norel: true},
+	{name: "hcli", src: "(make-instance 'http-client-flavor)", norel: true},
+	{name: "hent", src: "(make-instance 'host-ent)", norel: true},
+	// conditions: made by make-condition for every condition class of the registry, and as the runtime raises them
+	{name: "k_arith", src: "(make-condition 'arithmetic-error)", norel: true},
+	{name: "k_cell", src: "(make-condition 'cell-error)", norel: true},
+	{name: "k_cnf", src: "(make-condition 'class-not-found)", norel: true},
+	{name: "k_cond", src: "(make-condition 'condition)", norel: true},
+	{name: "k_ctrl", src: "(make-condition 'control-error)", norel: true},
+	{name: "k_div0", src: "(make-condition 'division-by-zero)", norel: true},
+	{name: "k_eof", src: "(make-condition 'end-of-file)", norel: true},
+	{name: "k_err", src: "(make-condition 'error)", norel: true},
+	{name: "k_file", src: "(make-condition 'file-error)", norel: true},
+	{name: "k_inval", src: "(make-condition 'invalid-method-error)", norel: true},
+	{name: "k_names", src: "(make-condition 'name-service-error)", norel: true},
+	{name: "k_noapp", src: "(make-condition 'no-applicable-method-error)", norel: true},
+	{name: "k_pkg", src: "(make-condition 'package-error)", norel: true},
+	{name: "k_parse", src: "(make-condition 'parse-error)", norel: true},
+	{name: "k_pnr", src: "(make-condition 'print-not-readable)", norel: true},
+	{name: "k_prog", src: "(make-condition 'program-error)", norel: true},
+	{name: "k_ser", src: "(make-condition 'serious-condition)", norel: true},
+	{name: "k_scond", src: "(make-condition 'simple-condition)", norel: true},
+	{name: "k_swarn", src: "(make-condition 'simple-warning)", norel: true},
+	{name: "k_strm", src: "(make-condition 'stream-error)", norel: true},
+	{name: "k_type", src: "(make-condition 'type-error)", norel: true},
+	{name: "k_uslot", src: "(make-condition 'unbound-slot)", norel: true},
+	{name: "k_uvar", src: "(make-condition 'unbound-variable)", norel: true},
+	{name: "k_ufun", src: "(make-condition 'undefined-function)", norel: true},
+	{name: "k_warn", src: "(make-condition 'warning)", norel: true},
+	{name: "k_user", src: "(make-condition 'c16-cond)", norel: true},
+	{name: "x_div0", src: "(cadr (multiple-value-list (ignore-errors (/ 1 0))))", norel: true},
+	{name: "x_type", src: "(cadr (multiple-value-list (ignore-errors (car 1))))", norel: true},
+	{name: "x_uvar", src: "(cadr (multiple-value-list (ignore-errors (eval 'c16-unbound-variable))))", norel: true},
+	{name: "x_cnf", src: "(cadr (multiple-value-list (ignore-errors (find-class 'c16-no-such-class t))))", norel: true},
+	{name: "x_pkg", src: "(cadr (multiple-value-list (ignore-errors (in-package 'c16-no-such-package))))", norel: true},
+	{name: "x_file", src: `(cadr (multiple-value-list (ignore-errors (open "/nonexistent/c16"))))`, norel: true},
+	{name: "x_ctrl", src: "(cadr (multiple-value-list (ignore-errors (return-from c16-no-such-block 1))))", norel: true},
+	{name: "x_inval", src: "(cadr (multiple-value-list (ignore-errors (send (make-instance 'vanilla-flavor) :c16-no-such-method))))", norel: true},
+	{name: "x_err", src: `(cadr (multiple-value-list (ignore-errors (error "c16"))))`, norel: true},
+	{name: "x_parse", src: `(cadr (multiple-value-list (ignore-errors (read-from-string "(1 2"))))`, norel: true},
 }
 
 var elemByName = func() map[string]*elem {
@@ -203,6 +363,9 @@ var elemByName = func() map[string]*elem {
 
 func relUniverse(tier string) (u []*elem) {
 	for _, e := range universe {
+		if e.norel {
+			continue
+		}
 		if e.quick || tier == "thorough" {
 			u = append(u, e)
 		}
@@ -219,6 +382,12 @@ func prep() {
 	prepOnce.Do(func() {
 		_, _ = lisp.Eval("(defflavor c16-fl ((a 1)) () :settable-instance-variables :initable-instance-variables)")
 		_, _ = lisp.Eval("(defclass c16-cl () ((x :initarg :x)))")
+		_, _ = lisp.Eval("(defclass c16-cl2 (c16-cl) ((y :initarg :y)))")
+		_, _ = lisp.Eval("(defflavor c16-fl2 () (c16-fl))")
+		_, _ = lisp.Eval("(defstruct c16-st a)")
+		_, _ = lisp.Eval("(defgeneric c16-gf (x))")
+		_, _ = lisp.Eval("(defun c16-fn (x) x)")
+		_, _ = lisp.Eval("(define-condition c16-cond (error) ())")
 	})
 }
 
@@ -242,6 +411,9 @@ func fineKind(o slip.Object) string {
 	case slip.SingleFloat:
 		return "single-float"
 	case slip.DoubleFloat:
+		if math.IsNaN(float64(v)) {
+			return "double-float-nan" // its own kind: Go's == never holds on it, signatures must tell it apart
+		}
 		return "double-float"
 	case *slip.LongFloat:
 		return "long-float"
@@ -311,6 +483,8 @@ func kindOf(fine string) string {
 		return "integer"
 	case "single-float", "double-float", "long-float":
 		return "float"
+	case "double-float-nan":
+		return "nan"
 	case "keyword":
 		return "symbol"
 	case "dotted-list":
@@ -329,5 +503,5 @@ func kindOf(fine string) string {
 }
 
 func isNumberKind(k string) bool {
-	return k == "integer" || k == "ratio" || k == "float" || k == "complex"
+	return k == "integer" || k == "ratio" || k == "float" || k == "complex" || k == "nan"
 }
